@@ -567,7 +567,7 @@ func (p *proposalTarget) get(k int, how string) (bool, string, error) {
 func TestC24(t *testing.T) {
 	r := vlib.Start(t, "C24", vlib.LevelExploration)
 	defer r.Finish()
-	r.SetRule("concurrent part: history = 1..8 clients issuing SetBallot/Ballot (resp. SetProposal/Proposal/ProposalByPoint) calls on 2..3 keys of one real TempPool (leveldb on goleveldb MemStorage whose journal writes take 0 / 0.2 / 1 / 3 ms, the latency a disk puts between a write call and its visibility), 3 different candidate values per key (ballots: different facts and signers for one (stage point, suffrage-confirm flag); proposals: one proposal fact signed by 3 keys), all clients writing to each key in turn at once from a barrier (one burst per key) and then <= 12 random reads and writes, optionally with a goroutine running the cleanup steps (keys within the protected depth); each history is checked per key with porcupine against a write-once register; distinct = fingerprint of the observed order of call/return events, counted only when calls overlapped. fault part (sequential, hook H3 of storage/leveldb): for every write boundary k of one SetProposal / SetBallot the storage lets k writes through and fails the rest, then works again; by-hash and by-point lookups must agree, a repeated Set and a Set of another value must keep the first writer; distinct = (kind, k, whether the stopped Set left its value). cleanup part (sequential): case = random entries over a window of heights, cleanup run, survivors and removed entries judged by the depth rule; distinct = (kind, heights relative to newest)")
+	r.SetRule("concurrent part: history = 1..8 clients issuing SetBallot/Ballot (resp. SetProposal/Proposal/ProposalByPoint) calls on 2..3 keys of one real TempPool (leveldb on goleveldb MemStorage whose journal writes take 0 / 0.2 / 1 / 3 ms, the latency a disk puts between a write call and its visibility), 3 different candidate values per key (ballots: different facts and signers for one (stage point, suffrage-confirm flag); proposals: one proposal fact signed by 3 keys), all clients writing to each key in turn at once from a barrier (one burst per key) and then <= 12 random reads and writes, optionally with a goroutine running the cleanup steps (keys within the protected depth); each history is checked per key with porcupine against a write-once register; distinct = fingerprint of the observed order of call/return events, counted only when calls overlapped. fault part (sequential, hook H3 of storage/leveldb): for every write boundary k of one SetProposal / SetBallot the storage lets k writes through and fails the rest, then works again; by-hash and by-point lookups must agree, a repeated Set and a Set of another value must keep the first writer; distinct = (kind, k, whether the stopped Set left its value). cleanup part (sequential): exhaustive cases with newest height 0..depth+1 (an entry at every height up to it; heights 0 and newest only), then case = random entries over a window of heights, cleanup run, survivors and removed entries judged by the depth rule; distinct = (kind, heights relative to newest)")
 	r.Assume("two proposals with different facts for one (point, proposer, previous block) are not generated: the statement fixes the first proposal per proposal fact and the lookup by point to 'that same proposal', which presumes one fact per (point, proposer, previous block)")
 	r.Assume("cleanup is demanded only what the statement says: an entry it removed lies at least <depth> heights below the newest height stored in that pool; entries above that line are still readable and unchanged; how much of the older part goes is not judged")
 
@@ -592,7 +592,7 @@ func TestC24(t *testing.T) {
 		})
 		r.Set("seconds_ballot_histories", int(time.Since(t0).Seconds()))
 		t0 = time.Now()
-		vlib.Parallel(r.N(30, 240), workers, func(hi int) {
+		vlib.Parallel(r.N(24, 240), workers, func(hi int) {
 			sl := <-slots
 			proposalHistory(r, g, sl, hi)
 			slots <- sl
@@ -603,12 +603,29 @@ func TestC24(t *testing.T) {
 		r.Set("seconds_fault_phase", int(time.Since(t0).Seconds()))
 		t0 = time.Now()
 		defer func() { r.Set("seconds_cleanup_cases", int(time.Since(t0).Seconds())) }()
-		nc := r.N(8, 60)
-		vlib.Parallel(nc, workers, func(ci int) {
+		nc := r.N(4, 60)
+		// exhaustive near the genesis height: newest height 0..depth+1 with
+		// an entry at every height below it, and with the newest one only
+		var small [][]int64
+		for newest := int64(0); newest <= int64(max(bdepth, pdepth))+1; newest++ {
+			var all []int64
+			for h := int64(0); h <= newest; h++ {
+				all = append(all, h)
+			}
+			small = append(small, all)
+			if newest > 0 {
+				small = append(small, []int64{0, newest})
+			}
+		}
+		vlib.Parallel(nc+len(small), workers, func(ci int) {
 			sl := <-slots
 			sl.disk.delay.Store(0)
 			must(sl.pool.Clean())
-			cleanupCase(r, g, sl.pool, ci, bdepth, pdepth)
+			if ci < len(small) {
+				cleanupCase(r, g, sl.pool, 100000+ci, bdepth, pdepth, small[ci])
+			} else {
+				cleanupCase(r, g, sl.pool, ci-len(small), bdepth, pdepth, nil)
+			}
 			must(sl.pool.Clean())
 			slots <- sl
 		})
@@ -765,7 +782,9 @@ func validPoint(h int64, round uint64) base.Point {
 
 // cleanupCase: sequential; entries over a window of heights, one cleanup of
 // each kind, then the depth rule.
-func cleanupCase(r *vlib.Run, g *rig, pool *isaacdatabase.TempPool, ci, bdepth, pdepth int) {
+// heights != nil: one ballot and one proposal at exactly these heights (the
+// exhaustive small-height cases); otherwise random entries.
+func cleanupCase(r *vlib.Run, g *rig, pool *isaacdatabase.TempPool, ci, bdepth, pdepth int, heights []int64) {
 	rng := r.Rand(24, 5, ci)
 
 	h0 := int64(rng.Intn(30))
@@ -787,8 +806,18 @@ func cleanupCase(r *vlib.Run, g *rig, pool *isaacdatabase.TempPool, ci, bdepth, 
 	var newestB, newestP int64 = -1, -1
 	usedB, usedP := map[string]bool{}, map[string]bool{}
 	n := 1 + rng.Intn(6)
+	if heights != nil {
+		n = len(heights)
+		r.Count("cleanup_small_height_cases", 1)
+	}
+	pick := func(i int) int64 {
+		if heights != nil {
+			return heights[i]
+		}
+		return h0 + rng.Int63n(span)
+	}
 	for i := 0; i < n; i++ {
-		k := ballotKey{point: validPoint(h0+rng.Int63n(span), uint64(rng.Intn(2))), stage: base.StageINIT}
+		k := ballotKey{point: validPoint(pick(i), uint64(rng.Intn(2))), stage: base.StageINIT}
 		switch rng.Intn(3) {
 		case 0:
 			k.stage = base.StageACCEPT
@@ -807,7 +836,7 @@ func cleanupCase(r *vlib.Run, g *rig, pool *isaacdatabase.TempPool, ci, bdepth, 
 			newestB = max(newestB, k.point.Height().Int64())
 		}
 
-		point := validPoint(h0+rng.Int63n(span), uint64(rng.Intn(2)))
+		point := validPoint(pick(i), uint64(rng.Intn(2)))
 		proposer := g.nodes[rng.Intn(len(g.nodes))]
 		if pk := point.String() + proposer.Address().String(); !usedP[pk] {
 			usedP[pk] = true
